@@ -96,6 +96,14 @@ def programs(tier: str):
         for outer in (False, True):
             for cancels in (0, 1):
                 yield {"block": dict(b), "outer": outer, "cancels": cancels}
+    # two events in one loop iteration (a disposable / spawned task finishing a step together with
+    # another one, or with the cancellation)
+    for b in singles:
+        if b["kind"] == "ascope" and (b.get("disp") or b.get("spawns")) and len(b.get("disp", [])) + len(b.get("spawns", [])) >= 1:
+            susp = any(d["enter"].startswith("susp") or d["exit"].startswith("susp") for d in b.get("disp", [])) or b.get("spawns")
+            if susp:
+                for cancels in (0, 1):
+                    yield {"block": dict(b), "outer": False, "cancels": cancels, "batch": 2}
     # depth 2: every simple block inside every simple host (host keeps its own ending)
     hosts = [b for b in simple if len(b.get("disp", [])) <= 1]
     inner = [b for b in simple if len(b.get("disp", [])) <= 1]
@@ -138,7 +146,7 @@ def _blocks(b):
 
 
 def execute(program, ch: Chooser) -> Result:  # noqa: C901, PLR0912
-    r = Run(program, ch, probes=True, spawn_probe=True, cancels=program["cancels"])
+    r = Run(program, ch, probes=True, spawn_probe=True, cancels=program["cancels"], batch=program.get("batch", 1))
     viols: list[dict] = []
     try:
         r.execute()
@@ -184,7 +192,11 @@ def execute(program, ch: Chooser) -> Result:  # noqa: C901, PLR0912
             during_exit = any(
                 sp["end"] == "raise" and sp.get("end_phase", ("", None))[0] == "exiting" for sp in r.all_spawned
             )
-            interrupted = isinstance(caught, asyncio.CancelledError) and during_exit
+            # (the failure may also have happened in the very loop iteration in which the body
+            # ended: the task group then processes it - and cancels the exiting task - while the
+            # disposables are being cleaned up)
+            failed_child = any(sp["end"] == "raise" for sp in r.all_spawned)
+            interrupted = isinstance(caught, asyncio.CancelledError) and (during_exit or (failed_child and bool(b.get("disp"))))
             if (
                 left is not None
                 and not cancelled
